@@ -417,6 +417,121 @@ func ruleR35(p *Prog) []Ob {
 			}
 		}
 	}
+	// empty-segment outcomes: returned by a pure lookup on the edge where len(items) == 0
+	emptyOutcomes := atomset{}
+	for _, fn := range p.Funcs {
+		if !srcFunc(fn) || fn.Parent() != nil || !pure(fn) || errResultIndex(fn) < 0 {
+			continue
+		}
+		ei := errResultIndex(fn)
+		for _, rt := range returnsOf(fn) {
+			a := sentinelOperand(returnOperand(rt, ei))
+			if a == "" || !outcomes[a] {
+				continue
+			}
+			for _, hb := range fn.Blocks {
+				iff, ok := terminator(hb).(*ssa.If)
+				if !ok {
+					continue
+				}
+				x, y, op, ok := relCond(iff.Cond)
+				if !ok || op != token.EQL {
+					continue
+				}
+				isLen := func(v ssa.Value) bool {
+					c, ok := v.(*ssa.Call)
+					return ok && isBuiltinCall(c.Common(), "len")
+				}
+				k, isK := constInt(y)
+				if isLen(x) && isK && k == 0 && edgeDominates(hb, 0, rt.Block()) {
+					emptyOutcomes[a] = true
+				}
+			}
+		}
+	}
+	// a query by relative offset (Get) must not take "this segment is empty" from the one segment it
+	// picked as the answer for the whole log
+	if m := p.R.ImplMethods["Get"]; m != nil && m.Blocks != nil {
+		for _, b := range m.Blocks {
+			for _, ins := range b.Instrs {
+				c, ok := ins.(*ssa.Call)
+				if !ok {
+					continue
+				}
+				g := c.Common().StaticCallee()
+				if g == nil || recvNamed(g) != p.R.SegReader || errResultIndex(g) < 0 {
+					continue
+				}
+				if _, loop := innermostLoop(b); loop != nil {
+					continue
+				}
+				var errV ssa.Value
+				for _, ref := range *c.Referrers() {
+					if ex, ok := ref.(*ssa.Extract); ok && ex.Index == errResultIndex(g) {
+						errV = ex
+					}
+				}
+				if errV == nil {
+					continue
+				}
+				var S []string
+				for a := range ea.atoms(errV, 0) {
+					if emptyOutcomes[a] {
+						S = append(S, a)
+					}
+				}
+				sort.Strings(S)
+				if len(S) == 0 {
+					continue
+				}
+				// the fallback itself: a call that only runs where an earlier pick reported "empty"
+				fallback := false
+				for _, hb := range m.Blocks {
+					iff, ok := terminator(hb).(*ssa.If)
+					if !ok {
+						continue
+					}
+					bo, ok := iff.Cond.(*ssa.BinOp)
+					if !ok || bo.Op != token.EQL {
+						continue
+					}
+					for _, side := range []ssa.Value{bo.X, bo.Y} {
+						if a := sentinelOperand(side); a != "" && emptyOutcomes[a] && edgeDominates(hb, 0, b) && hb != b {
+							fallback = true
+						}
+					}
+				}
+				if fallback {
+					continue
+				}
+				handled := map[string]bool{}
+				for _, hb := range m.Blocks {
+					if iff, ok := terminator(hb).(*ssa.If); ok {
+						if t, ok := classifyErrCond(iff.Cond, errV); ok && (t.kind == "eq" || t.kind == "is") {
+							for _, a := range S {
+								if a == t.target || (t.kind == "is" && ea.matchesIs(a, t.target)) {
+									handled[a] = true
+								}
+							}
+						}
+					}
+				}
+				ob := Ob{Rule: "R35", Inst: "empty-segment-outcome:Log.Get:" + shortCallee(g), Props: []string{"C04"}, Pos: p.at(c), Func: funcLabel(m), Nontrivial: true}
+				var missing []string
+				for _, a := range S {
+					if !handled[a] {
+						missing = append(missing, shortAtom(a))
+					}
+				}
+				if len(missing) > 0 {
+					ob.Status, ob.Msg = Violated, fmt.Sprintf("the one segment Log.Get picks can report %s (it is empty), and Log.Get passes that on as the answer for the whole log: with an empty head, Get(OffsetNewest) fails although earlier segments hold messages", strings.Join(missing, ", "))
+				} else {
+					ob.Status, ob.Msg = Discharged, "the empty-segment outcome of the picked segment is classified by Log.Get before anything is returned"
+				}
+				obs = append(obs, ob)
+			}
+		}
+	}
 	names := sortedKeys(p.R.ImplMethods)
 	n := 0
 	for _, q := range names {
@@ -753,6 +868,197 @@ func (p *Prog) wholeItems() []Ob {
 				obs = append(obs, ob)
 			}
 		}
+	}
+	return obs
+}
+
+// ---------------------------------------------------------------------------
+// R36 BOUNDARY-HAND-OFF (C10): the per-segment time lookup sees one segment only. When the requested
+// time equals the first timestamp of a segment, the older segment may end with messages of that same
+// time, so either (a) the lookup itself never answers where time == first timestamp (it hands off),
+// or (b) the loop over the segments can go on to the older segment after a successful lookup.
+func ruleR36(p *Prog) []Ob {
+	var obs []Ob
+	ea := p.ErrAtomsCached()
+	for _, q := range []string{"GetByTime"} {
+		m := p.R.ImplMethods[q]
+		ob := Ob{Rule: "R36", Inst: "boundary-hand-off:Log." + q, Props: []string{"C10"}, Pos: "-", Func: funcLabel(m), Nontrivial: true}
+		if m == nil || m.Blocks == nil {
+			ob.Status, ob.Msg = Undecided, "method not found"
+			obs = append(obs, ob)
+			continue
+		}
+		ob.Pos = p.posStr(m.Pos())
+		var call *ssa.Call
+		var errV ssa.Value
+		var header *ssa.BasicBlock
+		var loop map[*ssa.BasicBlock]bool
+		for _, b := range m.Blocks {
+			h, l := innermostLoop(b)
+			if l == nil {
+				continue
+			}
+			for _, ins := range b.Instrs {
+				c, ok := ins.(*ssa.Call)
+				if !ok {
+					continue
+				}
+				g := c.Common().StaticCallee()
+				if g == nil || recvNamed(g) != p.R.SegReader || errResultIndex(g) < 0 {
+					continue
+				}
+				hasOutcome := false
+				for _, ref := range *c.Referrers() {
+					if ex, ok := ref.(*ssa.Extract); ok && ex.Index == errResultIndex(g) {
+						for a := range ea.atoms(ex, 0) {
+							if strings.HasPrefix(a, "G:"+pkgIndex+".") {
+								hasOutcome = true
+							}
+						}
+						if hasOutcome {
+							errV = ex
+						}
+					}
+				}
+				if hasOutcome {
+					call, header, loop = c, h, l
+				}
+			}
+		}
+		if call == nil {
+			ob.Status, ob.Msg = Undecided, "no per-segment lookup inside a loop over the segments found"
+			obs = append(obs, ob)
+			continue
+		}
+		ob.Pos = p.at(call)
+		// (b) the success edge can reach the loop header again
+		canContinue := false
+		for b := range loop {
+			iff, ok := terminator(b).(*ssa.If)
+			if !ok {
+				continue
+			}
+			t, ok := classifyErrCond(iff.Cond, errV)
+			if !ok || t.kind != "nil" {
+				continue
+			}
+			si := 1
+			if t.trueMeans {
+				si = 0
+			}
+			seen := map[*ssa.BasicBlock]bool{}
+			work := []*ssa.BasicBlock{b.Succs[si]}
+			for len(work) > 0 {
+				x := work[len(work)-1]
+				work = work[:len(work)-1]
+				if x == header {
+					canContinue = true
+					break
+				}
+				if seen[x] || !loop[x] {
+					continue
+				}
+				seen[x] = true
+				work = append(work, x.Succs...)
+			}
+		}
+		// (a) the pure lookup never succeeds where ts <= items[0].Timestamp
+		handsOff := false
+		for _, fn := range p.Funcs {
+			if !srcFunc(fn) || funcPkgPath(fn) != pkgIndex || fn.Parent() != nil || errResultIndex(fn) < 0 {
+				continue
+			}
+			rets := ea.ret[fn]
+			if rets == nil || rets[errResultIndex(fn)] == nil || !rets[errResultIndex(fn)]["G:"+pkgIndex+".ErrTimeBeforeStart"] {
+				continue
+			}
+			isFirstTS := func(v ssa.Value) bool {
+				f, base := loadedField(canon(v))
+				if f == nil || f.Name() != "Timestamp" {
+					return false
+				}
+				// base is items[0]: an IndexAddr with constant 0, a load of one, or a local copy of one
+				var ia *ssa.IndexAddr
+				cur := base
+				for d := 0; d < 4 && ia == nil && cur != nil; d++ {
+					switch x := cur.(type) {
+					case *ssa.IndexAddr:
+						ia = x
+					case *ssa.UnOp:
+						cur = x.X
+					case *ssa.Alloc:
+						if sts := allocStores(x); len(sts) == 1 {
+							cur = sts[0].Val
+						} else {
+							cur = nil
+						}
+					default:
+						cur = nil
+					}
+				}
+				if ia == nil {
+					return false
+				}
+				k, isK := constInt(ia.Index)
+				return isK && k == 0
+			}
+			isTS := func(v ssa.Value) bool { _, ok := canon(v).(*ssa.Parameter); return ok }
+			all := true
+			nSucc := 0
+			for _, rt := range returnsOf(fn) {
+				if ea.isFailureReturn(fn, rt) {
+					continue
+				}
+				nSucc++
+				dom := false
+				for _, hb := range fn.Blocks {
+					iff, ok := terminator(hb).(*ssa.If)
+					if !ok {
+						continue
+					}
+					x, y, op, ok := relCond(iff.Cond)
+					if !ok {
+						continue
+					}
+					// normalise to: ts OP first
+					if isFirstTS(x) && isTS(y) {
+						x, y = y, x
+						switch op {
+						case token.LSS:
+							op = token.GTR
+						case token.GTR:
+							op = token.LSS
+						case token.LEQ:
+							op = token.GEQ
+						case token.GEQ:
+							op = token.LEQ
+						}
+					}
+					if !isTS(x) || !isFirstTS(y) {
+						continue
+					}
+					// strict ts > first holds on: false edge of ts <= first, true edge of ts > first
+					if (op == token.LEQ && edgeDominates(hb, 1, rt.Block())) || (op == token.GTR && edgeDominates(hb, 0, rt.Block())) {
+						dom = true
+					}
+				}
+				if !dom {
+					all = false
+				}
+			}
+			if nSucc > 0 && all {
+				handsOff = true
+			}
+		}
+		switch {
+		case handsOff:
+			ob.Status, ob.Msg = Discharged, "the per-segment lookup never answers where the time equals the segment's first timestamp: it hands off to the older segment"
+		case canContinue:
+			ob.Status, ob.Msg = Discharged, "after a successful per-segment lookup the loop over the segments can go on to the older segment (which may end with messages of the same time)"
+		default:
+			ob.Status, ob.Msg = Violated, "a successful per-segment lookup always ends the search, and the lookup answers where the time equals the segment's first timestamp: when the older segment ends with messages of that same time the answer is not the first message at or after the time"
+		}
+		obs = append(obs, ob)
 	}
 	return obs
 }
